@@ -1,8 +1,213 @@
 /-
-  C08 — property theorems (see DESIGN.md §5 C08).
+  C08 — what `Paragraph.WriteTo` writes is read back by the paragraph reader with the same
+  fields and the same logical lines.
+  Property theorems only; lemmas live in GoDebian/Lemmas/Deb822Write*.lean.
 -/
 import GoDebian.Model.Deb822
 import GoDebian.Spec.Deb822
+import GoDebian.Spec.Deb822Write
+import GoDebian.Lemmas.Deb822WriteInv
 
 namespace GoDebian.Props.C08
+open GoDebian GoDebian.Deb822 GoDebian.Spec.Deb822Write
+
+/-- A text paragraph used as the witness below: a plain field, a multi-line field with an
+    empty line (written " ."), a field whose first line starts with a blank (written on a
+    continuation line after an empty first line), an empty value. -/
+def sample : Paragraph :=
+  let pkg := Bytes.ofString "Package"
+  let desc := Bytes.ofString "Description"
+  let note := Bytes.ofString "X-Note"
+  let tag := Bytes.ofString "Tag"
+  ⟨[pkg, desc, note, tag],
+   [(pkg, Bytes.ofString "hello"),
+    (desc, Bytes.ofString "short text\n\n  indented: line\nlast\n"),
+    (note, Bytes.ofString "  starts with blanks\nmore"),
+    (tag, [])]⟩
+
+example : textPara sample = true ∧ sample.order ≠ [] ∧
+    sample.write = Bytes.ofString
+      "Package: hello\nDescription: short text\n .\n   indented: line\n last\nX-Note: \n   starts with blanks\n more\nTag: \n" := by
+  decide +kernel
+
+/-- the written form never contains an empty or white-space-only line inside a paragraph -/
+theorem C08_no_blank_line (p : Paragraph) (h : textPara p = true) :
+    ∀ l ∈ physLines p.write, blankLine l = false := by
+  have hs := Lemmas.Deb822Write.textPara_spec h
+  rw [Lemmas.Deb822Write.physLines_write p (fun k hk => (hs.2.1 k hk).1.2.2.1)]
+  exact Lemmas.Deb822Write.not_blank_paraLines hs.2.1
+
+example : (physLines sample.write).length = 9 ∧ blankLine (Bytes.ofString "  \t\r\n") = true := by
+  decide +kernel
+
+/-- it reads back as one paragraph with the same fields in the same order and the same
+    logical lines per field -/
+theorem C08_read_write (p : Paragraph) (h : textPara p = true) (hne : p.order ≠ []) :
+    ∃ q, all p.write = .ok [q] ∧ q.order = p.order ∧
+      ∀ k ∈ p.order, valueLines (q.get k) = valueLines (p.get k) :=
+  ⟨Lemmas.Deb822Write.reread p,
+    Lemmas.Deb822Write.all_write (Lemmas.Deb822Write.rereadable_of_textPara h hne), rfl,
+    fun _ hk => Lemmas.Deb822Write.valueLines_get_reread hk
+      ((Lemmas.Deb822Write.textPara_spec h).2.2 _ hk)⟩
+
+/-- The values themselves may differ by the trailing newline: "…\nmore" comes back as
+    "…\nmore\n"; the logical lines do not. -/
+example :
+    all sample.write = .ok [⟨sample.order,
+      [(Bytes.ofString "Package", Bytes.ofString "hello"),
+       (Bytes.ofString "Description", Bytes.ofString "short text\n\n  indented: line\nlast\n"),
+       (Bytes.ofString "X-Note", Bytes.ofString "  starts with blanks\nmore\n"),
+       (Bytes.ofString "Tag", [])]⟩] := by
+  decide +kernel
+
+/-- The excluded case (recorded finding `leading-empty-line`): an empty first line followed
+    by further lines is written as "k: \n more", which reads back without the empty line. -/
+example :
+    let p : Paragraph := ⟨[[107]], [([107], Bytes.ofString "\nmore")]⟩
+    noLeadingEmptyLine (p.get [107]) = false ∧
+    all p.write = .ok [⟨[[107]], [([107], Bytes.ofString "more\n")]⟩] := by
+  decide +kernel
+
+/-- paragraphs written one after another (blank line between, as the encoder does) read
+    back as the same number of paragraphs -/
+theorem C08_count (ps : List Paragraph) (h : ∀ p ∈ ps, textPara p = true ∧ p.order ≠ []) :
+    ∃ qs, all (writeAll ps) = .ok qs ∧ qs.length = ps.length :=
+  ⟨ps.map Lemmas.Deb822Write.reread,
+    Lemmas.Deb822Write.all_writeAll ps
+      (fun p hp => Lemmas.Deb822Write.rereadable_of_textPara (h p hp).1 (h p hp).2),
+    List.length_map _⟩
+
+example :
+    let ps := [sample, ⟨[[97]], [([97], [98])]⟩, sample]
+    (∀ p ∈ ps, textPara p = true ∧ p.order ≠ []) ∧
+      (all (writeAll ps)).toOption.map List.length = some 3 := by
+  decide +kernel
+
+/-- The non-emptiness hypothesis cannot be dropped: a paragraph without fields writes
+    nothing, and the two blank lines around it separate only two paragraphs. -/
+example :
+    let ps := [sample, ⟨[], []⟩, sample]
+    textPara ⟨[], []⟩ = true ∧ (all (writeAll ps)).toOption.map List.length = some 2 := by
+  decide +kernel
+
+/-! ### read–write–read -/
+
+/-- The stability statement as first written: read-write-read is the identity (up to one
+    trailing newline per value) on whatever the reader produced, and a second cycle changes
+    nothing.  It is FALSE (two independent counterexamples below); `C08_stable_partial` is
+    the strongest variant that holds. -/
+def C08_stable_full : Prop :=
+  ∀ (bs : Bytes) (ps : List Paragraph), all bs = .ok ps →
+    (∀ p ∈ ps, ∀ k ∈ p.order, noLeadingEmptyLine (p.get k) = true) →
+    ∃ ps', all (writeAll ps) = .ok ps' ∧
+      List.Forall₂ (fun a b => sameUpToNewline a b = true) ps ps' ∧ writeAll ps' = writeAll ps
+
+/-- the two hypotheses `C08_stable_partial` adds -/
+def noHashKeys (ps : List Paragraph) : Prop := ∀ p ∈ ps, ∀ k ∈ p.order, k.head? ≠ some 35
+def firstLinesKept (ps : List Paragraph) : Prop :=
+  ∀ p ∈ ps, ∀ k ∈ p.order, wfFirstLine ((valueLines (p.get k)).headD []) = true
+
+instance (ps : List Paragraph) : Decidable (noHashKeys ps) := by
+  unfold noHashKeys; exact inferInstance
+instance (ps : List Paragraph) : Decidable (firstLinesKept ps) := by
+  unfold firstLinesKept; exact inferInstance
+
+/-- Finding `hash-key`: the reader strips white space in front of a field name, so the
+    line "\r#foo: bar" (the line does not start with '#') gives the field "#foo"; the writer
+    puts it at the start of a line, where the reader takes it for a comment: the
+    paragraph is lost.  All values here are single trimmed lines. -/
+theorem C08_stable_needs_noHashKeys :
+    ∃ bs ps, all bs = .ok ps ∧
+      (∀ p ∈ ps, ∀ k ∈ p.order, noLeadingEmptyLine (p.get k) = true) ∧ firstLinesKept ps ∧
+      ¬ ∃ ps', all (writeAll ps) = .ok ps' ∧
+        List.Forall₂ (fun a b => sameUpToNewline a b = true) ps ps' ∧
+        writeAll ps' = writeAll ps := by
+  refine ⟨Bytes.ofString "\r#foo: bar\n",
+    [⟨[Bytes.ofString "#foo"], [(Bytes.ofString "#foo", Bytes.ofString "bar")]⟩],
+    by decide +kernel, by decide +kernel, by decide +kernel, ?_⟩
+  rintro ⟨ps', h1, h2, _⟩
+  have e : all (writeAll
+      [⟨[Bytes.ofString "#foo"], [(Bytes.ofString "#foo", Bytes.ofString "bar")]⟩]) = .ok [] := by
+    decide +kernel
+  rw [e] at h1
+  injection h1 with h1
+  subst h1
+  cases h2
+
+/-- Finding `first-line-space`: when a field's own line is empty, the first continuation
+    line becomes the first line of the value with only its trailing white space removed
+    and one leading blank or tab dropped; if it then starts with another white-space rune
+    (here '\r'; also '\v', '\f', U+00A0, …) the writer puts it on the field's own line,
+    where the reader trims it away: "\rx" comes back as "x".  No '#' key is involved. -/
+theorem C08_stable_needs_firstLinesKept :
+    ∃ bs ps, all bs = .ok ps ∧
+      (∀ p ∈ ps, ∀ k ∈ p.order, noLeadingEmptyLine (p.get k) = true) ∧ noHashKeys ps ∧
+      ¬ ∃ ps', all (writeAll ps) = .ok ps' ∧
+        List.Forall₂ (fun a b => sameUpToNewline a b = true) ps ps' ∧
+        writeAll ps' = writeAll ps := by
+  refine ⟨Bytes.ofString "a:\n \rx\n", [⟨[[97]], [([97], Bytes.ofString "\rx\n")]⟩],
+    by decide +kernel, by decide +kernel, by decide +kernel, ?_⟩
+  rintro ⟨ps', h1, h2, _⟩
+  have e : all (writeAll [⟨[[97]], [([97], Bytes.ofString "\rx\n")]⟩]) =
+      .ok [⟨[[97]], [([97], [120])]⟩] := by
+    decide +kernel
+  rw [e] at h1
+  injection h1 with h1
+  subst h1
+  cases h2 with
+  | cons hr _ => revert hr; decide +kernel
+
+theorem C08_stable_full_false : ¬ C08_stable_full := by
+  intro h
+  obtain ⟨bs, ps, h1, h2, _, h4⟩ := C08_stable_needs_noHashKeys
+  exact h4 (h bs ps h1 h2)
+
+/-- read-write-read is the identity (up to one trailing newline per value) on whatever the
+    reader produced, and a second cycle changes nothing, not even a byte — provided no
+    field name starts with '#' and every value's first line either starts with a blank or
+    tab or with no white-space rune at all (`wfFirstLine`). -/
+theorem C08_stable_partial (bs : Bytes) (ps : List Paragraph) (h : all bs = .ok ps)
+    (hl : ∀ p ∈ ps, ∀ k ∈ p.order, noLeadingEmptyLine (p.get k) = true)
+    (hh : noHashKeys ps) (hf : firstLinesKept ps) :
+    ∃ ps', all (writeAll ps) = .ok ps' ∧
+      List.Forall₂ (fun a b => sameUpToNewline a b = true) ps ps' ∧ writeAll ps' = writeAll ps :=
+  ⟨ps.map Lemmas.Deb822Write.reread, Lemmas.Deb822Write.stable_of_all h hl hh hf⟩
+
+/-- Two paragraphs with a comment, CRLF, an empty line inside a value, a tab-marked
+    continuation with trailing blanks, an empty field name, a field name with an inner
+    blank, a value whose first line starts with blanks, a repeated name across paragraphs. -/
+example :
+    let pkg := Bytes.ofString "Package"
+    let desc := Bytes.ofString "Description"
+    let ps : List Paragraph :=
+      [⟨[pkg, desc], [(pkg, Bytes.ofString "hello"),
+          (desc, Bytes.ofString "short\n\n indented\nlast\n")]⟩,
+       ⟨[[], Bytes.ofString "a b", [88], pkg],
+        [([], Bytes.ofString "empty key"), (Bytes.ofString "a b", Bytes.ofString "inner blank"),
+          ([88], Bytes.ofString "  lead\n"), (pkg, Bytes.ofString "again")]⟩]
+    all (Bytes.ofString ("# c\nPackage:  hello \r\nDescription: short\n .\n\t indented \n last\n\n\n" ++
+      ": empty key\na b : inner blank\nX:\n   lead\nPackage: again\n")) = .ok ps ∧
+    (∀ p ∈ ps, ∀ k ∈ p.order, noLeadingEmptyLine (p.get k) = true) ∧
+    noHashKeys ps ∧ firstLinesKept ps := by
+  decide +kernel
+
+/-- What every paragraph returned by the reader looks like (the invariant behind
+    `C08_stable_partial`): at least one field, distinct names, each name trimmed and free of
+    ':' and newline, each value a trimmed newline-free first line `t` alone, or `t` (if not
+    empty) and right-trimmed newline-free continuation lines other than ".", each followed
+    by a newline. -/
+theorem C08_reader_output (bs : Bytes) (ps : List Paragraph) (h : all bs = .ok ps) :
+    ∀ p ∈ ps, p.order ≠ [] ∧ p.order.Nodup ∧ ∀ k ∈ p.order,
+      (Str.trimSpace k = k ∧ 58 ∉ k ∧ 10 ∉ k) ∧
+      ∃ (t : Bytes) (ls : List Bytes), p.get k = (if ls.isEmpty then t else
+          (if t.isEmpty then [] else t ++ [10]) ++ (ls.map (· ++ [10])).flatten) ∧
+        Str.trimSpace t = t ∧ 10 ∉ t ∧
+        ∀ l ∈ ls, Str.trimRightSpace l = l ∧ 10 ∉ l ∧ l ≠ [46] := by
+  intro p hp
+  obtain ⟨h1, h2, h3⟩ := Lemmas.Deb822Write.all_inv h p hp
+  refine ⟨h1, h2, fun k hk => ?_⟩
+  obtain ⟨⟨hk1, hk2, hk3⟩, t, ls, hv, ht, ht', hls⟩ := h3 k hk
+  exact ⟨⟨Lemmas.Deb822WriteStr.trimSpace_of_trimmed hk1, hk2, hk3⟩, t, ls, hv,
+    Lemmas.Deb822WriteStr.trimSpace_of_trimmed ht, ht', hls⟩
+
 end GoDebian.Props.C08
